@@ -54,6 +54,7 @@ class HyperRAMEnv:
         self.last_idle = 0
         self.stuck = None
         self.finished_at = None
+        self.comb_starts = 0
         # ---- chip
         self.in_txn = False
         self.txn_start = 0
@@ -172,6 +173,52 @@ class HyperRAMEnv:
             self.pause_left = p
 
     # ------------------------------------------------------------------------------------------
+    def _start(self, first_cycle):
+        """ issue the next request; `first_cycle` = the cycle in which the DUT first sees the strobe """
+        u = self.user
+        self.k += 1
+        rq = self.reqs[self.k]
+        self.read_log.append([])
+        self.write_accepts.append([])
+        u.update(start_transfer=1, address=rq["address"], register_space=rq["register"],
+                 perform_write=rq["write"], single_page=rq["single_page"],
+                 write_data=(rq["words"][0] if rq["write"] else 0),
+                 final_word=1 if rq["n"] == 1 else 0)
+        self.widx = 0
+        self.strobe_left = rq["strobe"] - 1
+        self.req_start.append(first_cycle)
+        self.state = "BUSY"
+        self.first_busy = True
+
+    def _finish(self, t):
+        self.state = "WAIT_IDLE"
+        self.req_done.append(t)
+        self.last_idle = t
+        self.user["final_word"] = 0
+        nxt = self.k + 1
+        self.wait = self.reqs[nxt].get("gap", 0) if nxt < len(self.reqs) else 0
+
+    def react(self, t, s):
+        """ combinational user logic (start_transfer = request_pending & idle): a request marked "start_at": "comb" is
+            strobed in the very first cycle the interface shows idle """
+        nxt = self.k + 1
+        if nxt >= len(self.reqs) or self.reqs[nxt].get("start_at") != "comb" or not s["idle"]:
+            return None
+        if len(self.pins) >= 2 and self.pins[-2]["start_transfer"]:
+            return None         # the previous strobe was still high in the previous cycle: no separate strobe possible yet
+        if self.state == "BUSY":
+            if self.first_busy or self.user["start_transfer"]:
+                return None
+            self._finish(t)
+        elif self.wait > 0:
+            return None
+        self._start(t)
+        self.comb_starts += 1
+        pins = dict(self.user)
+        if self.pins:
+            self.pins[-1].update(pins)
+        return pins
+
     def _user(self, t, s):
         idle = s["idle"]
         u = self.user
@@ -190,19 +237,7 @@ class HyperRAMEnv:
                 if self.wait > 0:
                     self.wait -= 1
                 else:
-                    self.k += 1
-                    rq = self.reqs[self.k]
-                    self.read_log.append([])
-                    self.write_accepts.append([])
-                    u.update(start_transfer=1, address=rq["address"], register_space=rq["register"],
-                             perform_write=rq["write"], single_page=rq["single_page"],
-                             write_data=(rq["words"][0] if rq["write"] else 0),
-                             final_word=1 if rq["n"] == 1 else 0)
-                    self.widx = 0
-                    self.strobe_left = rq["strobe"] - 1
-                    self.req_start.append(t + 1)
-                    self.state = "BUSY"
-                    self.first_busy = True
+                    self._start(t + 1)
             elif t - self.last_idle > self.idle_limit:
                 self.stuck = t
                 return True
@@ -230,12 +265,12 @@ class HyperRAMEnv:
                 self.widx += 1
                 u["final_word"] = 1 if self.widx == rq["n"] - 1 else 0
             if idle and not u["start_transfer"]:
-                self.state = "WAIT_IDLE"
-                self.req_done.append(t)
-                self.last_idle = t
-                u["final_word"] = 0
+                self._finish(t)
                 nxt = self.k + 1
-                self.wait = self.reqs[nxt].get("gap", 0) if nxt < len(self.reqs) else 0
+                if nxt < len(self.reqs) and self.reqs[nxt].get("start_at") == "next" and not self.pins[-1]["start_transfer"]:
+                    # (only if the previous strobe is already low in this cycle: two strobes are separated by a low cycle)
+                    # registered user logic that has its next request ready: strobe in the cycle after the first idle cycle
+                    self._start(t + 1)
                 return False
         if t - self.req_start[self.k] > self.idle_limit:
             self.stuck = t
